@@ -2,6 +2,7 @@
 // file-access list (chunk cache size, sieve buffer) through -Wl,--wrap.
 #include "sim.hpp"
 #include <hdf5.h>
+#include <cstdlib>
 
 extern "C" hid_t __real_H5Fopen(const char *name, unsigned flags, hid_t fapl);
 extern "C" hid_t __real_H5Fcreate(const char *name, unsigned flags, hid_t fcpl, hid_t fapl);
@@ -64,7 +65,7 @@ void h5knob_tbuf(int mode) { g_tbuf_mode = mode; }
 uint64_t h5knob_tbuf_applied() { return g_tbuf_applied; }
 void h5knob_set(int c, int s) { g_cache_mode = c; g_sieve_mode = s; }
 uint64_t h5knob_applied() { return g_applied; }
-void h5_quiet() { H5Eset_auto2(H5E_DEFAULT, NULL, NULL); }
+void h5_quiet() { if (!getenv("NIXSIM_H5DIAG")) H5Eset_auto2(H5E_DEFAULT, NULL, NULL); }
 void h5_warm() {
     H5open();
     h5_quiet();
@@ -79,6 +80,7 @@ void h5_warm() {
 #include <exception>
 #include <cstdio>
 #include <cstdlib>
+extern "C" void __sanitizer_print_stack_trace(void) __attribute__((weak));
 extern "C" void __real___cxa_throw(void *thrown, std::type_info *tinfo, void (*dest)(void *)) __attribute__((noreturn));
 namespace sim { int g_trace = -1; }
 extern "C" void __wrap___cxa_throw(void *thrown, std::type_info *tinfo, void (*dest)(void *)) {
@@ -88,6 +90,7 @@ extern "C" void __wrap___cxa_throw(void *thrown, std::type_info *tinfo, void (*d
         const char *what = "";
         if (typeid(std::exception).__do_catch(tinfo, &adj, 1)) what = static_cast<std::exception *>(adj)->what();
         fprintf(stdout, "    throw %s: %s\n", tinfo->name(), what);
+        if (getenv("NIXSIM_BT")) { fflush(stdout); H5Eprint2(H5E_DEFAULT, stdout); fflush(stdout); if (__sanitizer_print_stack_trace) __sanitizer_print_stack_trace(); }
     }
     __real___cxa_throw(thrown, tinfo, dest);
 }
